@@ -231,55 +231,53 @@ Fixpoint year_loop (fuel : nat) (ws prefix : str) (start : Z) : option (option Z
       end
   end.
 
-Definition detect_year (prefixes : list str) (s : str) : dres str :=
-  (fix go (ps : list str) : dres str :=
-     match ps with
-     | [] => DNo
-     | p :: ps' =>
-         match year_loop (S (S (length s))) s p 0 with
-         | None => DErr
-         | Some None => go ps'
-         | Some (Some i) =>
-             let year := slice s i (i + 4) in
-             let pre := if i =? 0 then [] else [(slice s 0 i, None)] in
-             let post := if i + 4 <? len s then [(sfrom s (i + 4), None)] else [] in
-             (* `if year:` *)
-             if nonempty year then DYes (pre ++ (slice s i (i + 4), Some LY) :: post) year else DNo
-         end
-     end) prefixes.
+Fixpoint detect_year (prefixes : list str) (s : str) : dres str :=
+  match prefixes with
+  | [] => DNo
+  | p :: ps' =>
+      match year_loop (S (S (length s))) s p 0 with
+      | None => DErr
+      | Some None => detect_year ps' s
+      | Some (Some i) =>
+          let year := slice s i (i + 4) in
+          let pre := if i =? 0 then [] else [(slice s 0 i, None)] in
+          let post := if i + 4 <? len s then [(sfrom s (i + 4), None)] else [] in
+          (* `if year:` *)
+          if nonempty year then DYes (pre ++ (slice s i (i + 4), Some LY) :: post) year else DNo
+      end
+  end.
 
 (* ---------------------------------------------------------------- context *)
 
 Definition hash_one : str := [35; 49]%N.    (* "#1" *)
 
-Definition detect_context (replacements : list str) (s : str) : dres str :=
-  (fix go (rs : list str) : dres str :=
-     match rs with
-     | [] => DNo
-     | r :: rs' =>
-         let start_index := find s r in
-         if start_index =? -1 then go rs' else
-         let false_positive :=
-           if str_eqb r hash_one then
-             if start_index <? len s - 3 then
-               match getc s (start_index + 3) with
-               | None => None
-               | Some c => Some (isdigit c)
-               end
-             else Some false
-           else Some false in
-         match false_positive with
-         | None => DErr
-         | Some true => go rs'
-         | Some false =>
-             let pre := if start_index =? 0 then [] else [(slice s 0 start_index, None)] in
-             let mid := (slice s start_index (start_index + len r), Some LX) in
-             let post := if start_index + len r <? len s
-                         then [(sfrom s (start_index + len r), None)] else [] in
-             (* `if cs_string:` *)
-             if nonempty r then DYes (pre ++ mid :: post) r else DNo
-         end
-     end) replacements.
+Fixpoint detect_context (replacements : list str) (s : str) : dres str :=
+  match replacements with
+  | [] => DNo
+  | r :: rs' =>
+      let start_index := find s r in
+      if start_index =? -1 then detect_context rs' s else
+      let false_positive :=
+        if str_eqb r hash_one then
+          if start_index <? len s - 3 then
+            match getc s (start_index + 3) with
+            | None => None
+            | Some c => Some (isdigit c)
+            end
+          else Some false
+        else Some false in
+      match false_positive with
+      | None => DErr
+      | Some true => detect_context rs' s
+      | Some false =>
+          let pre := if start_index =? 0 then [] else [(slice s 0 start_index, None)] in
+          let mid := (slice s start_index (start_index + len r), Some LX) in
+          let post := if start_index + len r <? len s
+                      then [(sfrom s (start_index + len r), None)] else [] in
+          (* `if cs_string:` *)
+          if nonempty r then DYes (pre ++ mid :: post) r else DNo
+      end
+  end.
 
 (* ------------------------------------------------------------------ email *)
 
@@ -289,26 +287,28 @@ Definition c_slash : N := 47%N.
 Definition c_colon : N := 58%N.
 Definition c_space : N := 32%N.
 
+(* the `for tld in tld_list` loop; ws = section[0].lower() *)
+Fixpoint email_go (s ws : str) (tl : list str) : dres (str * str) :=
+  match tl with
+  | [] => DNo
+  | tld :: tl' =>
+      let end_index := find ws tld in
+      if end_index =? -1 then email_go s ws tl' else
+      let end_index := end_index + len tld in
+      let marker_index := find (slice ws 0 end_index) [c_at] in
+      if marker_index =? -1 then email_go s ws tl' else
+      let found := slice ws 0 end_index in
+      let provider := slice ws (marker_index + 1) end_index in
+      let post := if end_index =? len ws then [] else [(sfrom s end_index, None)] in
+      (* `if email:` *)
+      if nonempty found then DYes ((slice s 0 end_index, Some LE) :: post) (found, provider) else DNo
+  end.
+
 Definition detect_email (tlds : list str) (s : str) : dres (str * str) :=
   let ws := lower s in
   if negb (contains ws [c_dot]) then DNo
   else if negb (contains ws [c_at]) then DNo
-  else
-  (fix go (tl : list str) : dres (str * str) :=
-     match tl with
-     | [] => DNo
-     | tld :: tl' =>
-         let end_index := find ws tld in
-         if end_index =? -1 then go tl' else
-         let end_index := end_index + len tld in
-         let marker_index := find (slice ws 0 end_index) [c_at] in
-         if marker_index =? -1 then go tl' else
-         let found := slice ws 0 end_index in
-         let provider := slice ws (marker_index + 1) end_index in
-         let post := if end_index =? len ws then [] else [(sfrom s end_index, None)] in
-         (* `if email:` *)
-         if nonempty found then DYes ((slice s 0 end_index, Some LE) :: post) (found, provider) else DNo
-     end) tlds.
+  else email_go s ws tlds.
 
 (* ---------------------------------------------------------------- website *)
 
@@ -338,62 +338,67 @@ Fixpoint web_scan (fuel : nat) (ws tld : str) (end_index total_index : Z) : opti
       else Some (Some total_index)
   end.
 
-(* found = (url, host, prefix) *)
+(* everything after an occurrence of the tld has been accepted;
+   found = (url, host, prefix) *)
+Definition web_accept (s ws tld : str) (total_index : Z) : dres (str * str * option str) :=
+  let end_index := total_index + len tld in
+  let end_of_url :=
+    if end_index =? len ws then Some end_index
+    else match getc ws end_index with
+         | None => None
+         | Some c => if N.eqb c c_slash then Some (len ws) else Some end_index
+         end in
+  match end_of_url with
+  | None => DErr
+  | Some end_of_url =>
+      let start_index := rfind (sto ws total_index) [c_dot] + 1 in
+      let start_index := if start_index =? -1 then rfind (sto ws total_index) [c_slash] + 1 else start_index in
+      let start_index := if start_index =? -1 then rfind (sto ws total_index) [c_colon] + 1 else start_index in
+      let start_index := if start_index =? -1 then rfind (sto ws total_index) [c_space] + 1 else start_index in
+      let host := slice ws start_index (total_index + len tld) in
+      let st0 : option str * Z := if start_index =? -1 then (None, 0) else (None, -1) in
+      let st1 : option str * Z :=
+        if snd st0 =? -1 then
+          let pi := rfind (sto ws (start_index + 1)) s_http_www in
+          if pi =? -1 then st0 else (Some s_http_www, pi)
+        else st0 in
+      let st2 : option str * Z :=
+        if snd st1 =? -1 then
+          let pi := rfind (sto ws start_index) s_http in
+          if pi =? -1 then st1 else (Some s_http, pi)
+        else st1 in
+      let st3 : option str * Z :=
+        if snd st2 =? -1 then
+          let pi := rfind (sto ws start_index) s_www in
+          if pi =? -1 then st2 else (Some s_www, pi)
+        else st2 in
+      let prefix := fst st3 in
+      let start_of_url := if snd st3 =? -1 then 0 else snd st3 in
+      let full_url := slice ws start_of_url end_of_url in
+      let pre := if start_of_url =? 0 then [] else [(slice s 0 start_of_url, None)] in
+      let post := if end_of_url =? len s then [] else [(sfrom s end_of_url, None)] in
+      (* `if url:` *)
+      if nonempty full_url
+      then DYes (pre ++ (slice ws start_of_url end_of_url, Some LW) :: post) (full_url, host, prefix)
+      else DNo
+  end.
+
+(* the `for tld in tld_list` loop; ws = section[0].lower() *)
+Fixpoint web_go (s ws : str) (tl : list str) : dres (str * str * option str) :=
+  match tl with
+  | [] => DNo
+  | tld :: tl' =>
+      let end_index := find ws tld in
+      match web_scan (S (S (length ws))) ws tld end_index end_index with
+      | None => DErr
+      | Some None => web_go s ws tl'
+      | Some (Some total_index) => web_accept s ws tld total_index
+      end
+  end.
+
 Definition detect_website (tlds : list str) (s : str) : dres (str * str * option str) :=
   let ws := lower s in
-  if negb (contains ws [c_dot]) then DNo else
-  (fix go (tl : list str) : dres (str * str * option str) :=
-     match tl with
-     | [] => DNo
-     | tld :: tl' =>
-         let end_index := find ws tld in
-         match web_scan (S (S (length ws))) ws tld end_index end_index with
-         | None => DErr
-         | Some None => go tl'
-         | Some (Some total_index) =>
-             let end_index := total_index + len tld in
-             let end_of_url :=
-               if end_index =? len ws then Some end_index
-               else match getc ws end_index with
-                    | None => None
-                    | Some c => if N.eqb c c_slash then Some (len ws) else Some end_index
-                    end in
-             match end_of_url with
-             | None => DErr
-             | Some end_of_url =>
-                 let start_index := rfind (sto ws total_index) [c_dot] + 1 in
-                 let start_index := if start_index =? -1 then rfind (sto ws total_index) [c_slash] + 1 else start_index in
-                 let start_index := if start_index =? -1 then rfind (sto ws total_index) [c_colon] + 1 else start_index in
-                 let start_index := if start_index =? -1 then rfind (sto ws total_index) [c_space] + 1 else start_index in
-                 let host := slice ws start_index (total_index + len tld) in
-                 let st0 : option str * Z := if start_index =? -1 then (None, 0) else (None, -1) in
-                 let st1 : option str * Z :=
-                   if snd st0 =? -1 then
-                     let pi := rfind (sto ws (start_index + 1)) s_http_www in
-                     if pi =? -1 then st0 else (Some s_http_www, pi)
-                   else st0 in
-                 let st2 : option str * Z :=
-                   if snd st1 =? -1 then
-                     let pi := rfind (sto ws start_index) s_http in
-                     if pi =? -1 then st1 else (Some s_http, pi)
-                   else st1 in
-                 let st3 : option str * Z :=
-                   if snd st2 =? -1 then
-                     let pi := rfind (sto ws start_index) s_www in
-                     if pi =? -1 then st2 else (Some s_www, pi)
-                   else st2 in
-                 let prefix := fst st3 in
-                 let start_of_url := if snd st3 =? -1 then 0 else snd st3 in
-                 let full_url := slice ws start_of_url end_of_url in
-                 let pre := if start_of_url =? 0 then [] else [(slice s 0 start_of_url, None)] in
-                 let post := if end_of_url =? len s then [] else [(sfrom s end_of_url, None)] in
-                 (* `if url:` *)
-                 if nonempty full_url
-                 then DYes (pre ++ (slice ws start_of_url end_of_url, Some LW) :: post) (full_url, host, prefix)
-                 else DNo
-             end
-         end
-     end) tlds.
+  if negb (contains ws [c_dot]) then DNo else web_go s ws tlds.
 
 (* ---------------------------------------------------------- keyboard walk *)
 
